@@ -52,7 +52,15 @@ type vf19TCPCase struct {
 	KeySeed    uint64 `json:"key"`
 }
 
-const vf19TCPBound = 60 * time.Second
+// vf19TCPBound: the generous "never finished" bound (a case normally takes well
+// under a second).  Shorter in quick, so that a relay that never closes costs
+// 20 s there, not 70.
+var vf19TCPBound = func() time.Duration {
+	if ev.Thorough() {
+		return 60 * time.Second
+	}
+	return 20 * time.Second
+}()
 
 // vf19Pattern: reproducible stream content (position dependent, so that lost,
 // repeated or reordered ranges show).
@@ -406,7 +414,7 @@ func TestVerifC19RelayTCP(t *testing.T) {
 		generated = 150
 	}
 	e.Rule(fmt.Sprintf("relay-tcp: copyLoop over real loopback TCP sockets (127.0.0.1:0; relay end accepted or dialed) on both sides, or on one side with a scripted conn on the other (both positions); 10 fixed cases (every topology and both enders with 2-6 MiB, plus 0 / 1 / 64 KiB / 3 MiB with data both ways) and %d cases generated from VERIF_SEED (amounts 0, 1, 64 KiB, 1-16 MiB; 0-1 MiB the other way; slow peer: first pause 10-160 ms, reads of 4-256 KiB every 0-2 ms while the relay runs, one more pause of 0-120 ms after the relay returned); the ending side half-closes after its last byte; non-trivial = more than 256 KiB still unread by the slow peer at the moment copyLoop returned; fingerprint = case", generated))
-	e.Assume("relay-tcp: the loopback TCP stack of the host kernel is trusted; the 60 s bound only yields 'inconclusive' unless every byte had arrived")
+	e.Assume("relay-tcp: the loopback TCP stack of the host kernel is trusted; the 'never finished' bound (20 s quick, 60 s thorough) only yields 'inconclusive' unless every byte had arrived")
 	e.Floor("relay-tcp-backlog>256KiB-when-the-relay-closed/relay-tcp", 0.2)
 	e.Floor("relay-tcp-side-a-is-tcp-and-side-b-ends-with-backlog/relay-tcp", 0.1)
 	shard, nshards := ev.IntEnv("VERIF_SHARD", 0), ev.IntEnv("VERIF_NSHARDS", 1)
